@@ -8,6 +8,42 @@ R = O.R
 VALUES = [1, 2, 7, R - 1, R + 1, (1 << 256) - 1, 0, R]
 
 
+def near(v, rng):
+    """an identity that differs from v (also mod r), but only just: one bit, one 64-bit word (so that the low 64 / 128 / 192 bits or the high
+    ones agree), two words exchanged, one 32-bit half changed - pairs that a comparison, copy or reduction looking at part of the number
+    cannot tell apart.  Random and small test identities never form such pairs."""
+    M = 1 << 256
+    for _ in range(20):
+        t = rng.randrange(6)
+        if t == 0:
+            w = v ^ (1 << rng.choice([0, 31, 32, 63, 64, 127, 128, 191, 192, 255]))
+        elif t == 1:
+            k = rng.choice([64, 128, 192])
+            w = (v % (1 << k)) | (rng.getrandbits(256 - k) << k)
+        elif t == 2:
+            k = rng.choice([64, 128, 192])
+            w = (v >> k << k) | rng.getrandbits(k)
+        elif t == 3:
+            ws = [(v >> (64 * j)) & (2 ** 64 - 1) for j in range(4)]
+            a, b = rng.sample(range(4), 2)
+            ws[a], ws[b] = ws[b], ws[a]
+            w = sum(x << (64 * j) for j, x in enumerate(ws))
+        elif t == 4:
+            w = (v + (1 << rng.choice([64, 128, 192]))) % M
+        else:
+            w = v ^ (0xffffffff << (32 * rng.randrange(8)))
+        if w != v and (w - v) % R:
+            return w
+    return v ^ (1 << 128)
+
+
+def nudge(v, rng, small):
+    """a value different from v mod r: v + (small non-zero), or a near miss of v"""
+    if rng.random() < 0.5:
+        return (v + rng.choice(small)) % (1 << 256)
+    return near(v, rng)
+
+
 def idhex(v):
     return int(v).to_bytes(32, 'little').hex()
 
@@ -52,9 +88,9 @@ def hidden_ids(entries, rng, other=None):
     return out
 
 
-def alist_pair(frm, to, rng, omit_all_to=False):
+def alist_pair(frm, to, rng, omit_all_to=False, omit_all_from=False):
     """render two related lists (adjust from -> to); hidden entries of each tend to carry the other's value for that slot"""
-    return alist(frm, False, hidden_ids(frm, rng, to)), alist(to, omit_all_to, hidden_ids(to, rng, frm))
+    return alist(frm, omit_all_from, hidden_ids(frm, rng, to)), alist(to, omit_all_to, hidden_ids(to, rng, frm))
 
 
 def fixed_list(pattern):
@@ -146,7 +182,33 @@ class Script:
     def seed(self):
         return self.rng.getrandbits(48)
 
+    SEEDPOS = {'setup': 4, 'keygen': 5, 'qualify': 6, 'resample': 6, 'dec': 4, 'sign': 6}
+
+    def crafted_stream(self):
+        """bytes for the caller's random source that force the exponent sampler through its rejection branches: digits at and above
+        |x|, candidates at and just above r, several rejected candidates in a row"""
+        import c07
+        rng = self.rng
+        # (no all-zero candidate here: the library's Zp* sampler does not redraw 0, and an operation run with exponent 0 - probability
+        # 2^-255 with an honest source - yields degenerate objects, e.g. a ciphertext that carries the message in the clear; the
+        # scheme properties quantify over keys, lists and messages, not over such streams.  C10 covers the sampler itself.)
+        t = rng.choice([0, 1, 2, 4])
+        if t == 0:
+            return c07.make_stream(rng, rng.choice([0, 1, 3]), rng.choice([1, 1, 2, 3]))
+        if t == 1:
+            return c07.boundary_stream(rng, rng.choice([0, 0, 1, -1, 5, 1 << 64]))
+        if t == 2:
+            return c07.digit_edge_stream(rng, rng.randrange(4), rng.choice([c07.XA - 1, c07.XA, c07.XA + 1, (1 << 64) - 1]))
+        return c07.make_stream(rng, rng.choice([1, 5]), 0)
+
     def add(self, line, kind, **kw):
+        toks = line.split(' ')
+        pos = self.SEEDPOS.get(toks[0])
+        if pos is not None and len(toks) > pos and toks[pos].isdigit() and self.rng.random() < 0.15:
+            # the operation's random source starts with a crafted stream instead of PRNG output ('x<hex>' in place of the seed)
+            toks[pos] = 'x' + self.crafted_stream().hex()
+            line = ' '.join(toks)
+            self.nstream = getattr(self, 'nstream', 0) + 1
         self.lines.append(line)
         self.exp.append((kind, kw))
 
